@@ -482,6 +482,52 @@ def w_words(items):
     return n, out, counts
 
 
+def w_foreign_eml(units):
+    """The one foreign name of the model realised by EVERY element name of the vocabulary that the rule does not list
+    ("a child that is fine under some other parent"): alone, in the middle of a valid sequence and at its end."""
+    from metapype.model.node import Node
+    out, n = [], 0
+    rules = G["rules"]
+    for unit in units:
+        d = G["dfas"][unit]
+        if ANY in d.sigma or unit == "@metadata" or FOREIGN not in d.sigma:
+            continue
+        element = G["elem1"].get(unit)
+        # shortest non-empty accepted word
+        base, frontier, seen = None, [((), d.init)], {d.init}
+        for _ in range(8):
+            nxt = []
+            for w, st in frontier:
+                if w and d.out[st] == "ACCEPT":
+                    base = w
+                    break
+                for a in d.sigma:
+                    if a != FOREIGN and d.delta[st][a] not in seen:
+                        seen.add(d.delta[st][a])
+                        nxt.append((w + (a,), d.delta[st][a]))
+            if base:
+                break
+            frontier = nxt
+        base = base or ()
+        shapes = [(FOREIGN,)] + ([base[:len(base) // 2] + (FOREIGN,) + base[len(base) // 2:], base + (FOREIGN,)] if base else [])
+        foreign = [nm for nm in G["vocabulary"] if nm not in d.sigma]
+        for nm in foreign:
+            for w in shapes:
+                verdict = d.out[d.run(w)]
+                p = parent_for(unit, element, rules)
+                for a in w:
+                    p.add_child(Node(nm if a == FOREIGN else a))
+                ff, craised, errs = validate_both(unit, element, p)
+                Node.store.clear()
+                n += 1
+                for clause, exc in judge(verdict, ff, craised, errs):
+                    e = f":{type(exc).__name__}" if exc is not None else ""
+                    shown = [nm if a == FOREIGN else a for a in w]
+                    out.append((f"{clause}{e}:{unit}", f"{unit} ({element}) children {shown} ({nm} is not a name of this rule): verdict {verdict}; fail-fast {ff!r}; collecting raised {craised!r}, codes {[x[0].name for x in errs]}",
+                                {"kind": "word", "unit": unit, "element": element, "word": shown, "verdict": verdict}))
+    return n, out
+
+
 def w_greedy(idx):
     from metapype.model.node import Node
     ok = bad = 0
@@ -574,6 +620,14 @@ def run(rep, tier, seed):
             counts[kk] += c[kk]
         for key, det, replay in outl:
             rep.violation(f"{PID}:{key}", det[:600], replay)
+    G["vocabulary"] = sorted(set(node_map) | {a for d in dfas.values() for a in d.sigma if a not in (FOREIGN, ANY) and not a.startswith("~")})
+    nf = 0
+    for (m, outl) in parallel(w_foreign_eml, sorted(dfas), chunk=2):
+        nf += m
+        for key, det, replay in outl:
+            rep.violation(f"{PID}:{key}", det[:600], replay)
+    rep.notes["foreign_names_from_the_vocabulary"] = nf
+    n += nf
     # Greedy.tla: the transcribed algorithm. (1) bounded theorem on the real table, (2) exact predicted code
     # sequences compared with the code - both reported as information, never as a C01 violation.
     gb = 1000 if tier == "quick" else 30000
